@@ -7,6 +7,7 @@ package c08
 
 import (
 	"context"
+	"crypto/tls"
 	"encoding/json"
 	"fmt"
 	"net"
@@ -275,7 +276,10 @@ func runCk(f []string) (o core.Outcome) {
 	first := true
 	for _, kv := range cks {
 		val := kv.v
-		if len(val) == 2 && val[0] == 't' && val[1] >= '0' && val[1] <= '7' {
+		if len(val) == 2 && val[0] == 'w' && val[1] >= '0' && val[1] <= '7' {
+			// the token of probe upstream j under another secret: a forged cookie
+			val, _ = reverseproxy.VerifHashCookie("not-the-secret", probeDial(int(val[1]-'0')))
+		} else if len(val) == 2 && val[0] == 't' && val[1] >= '0' && val[1] <= '7' {
 			val, _ = reverseproxy.VerifHashCookie(cookieSecret, probeDial(int(val[1]-'0')))
 			if kv.k == name && first {
 				want = string(kv.v[1])
@@ -325,6 +329,9 @@ var (
 func genKey(rng *core.Rand) string {
 	if rng.Chance(1, 5) {
 		return genCk(rng)
+	}
+	if rng.Chance(1, 8) {
+		return genSc(rng)
 	}
 	kind := []string{"iph", "ciph", "urih", "hdr", "hdr", "qry", "qry"}[rng.Intn(7)]
 	remote, cip := rng.Pick(genAddrs), rng.Pick(genAddrs)
@@ -399,9 +406,101 @@ func genCk(rng *core.Rand) string {
 		case 0:
 			v = "x" + strconv.Itoa(rng.Intn(100))
 		case 1:
-			v = "t9" // looks like a token reference but is none
+			v = "w" + strconv.Itoa(rng.Intn(nProbe)) // forged with another secret
 		}
 		cks = append(cks, hexPair{rng.Pick(names), v})
 	}
 	return fmt.Sprintf("ck %s %s", core.Hex(name), pairsField(cks))
+}
+
+// ---------------------------------------------------------------- the sticky cookie's attributes (`sc` lines)
+
+func runSc(f []string) (o core.Outcome) {
+	bad := core.Outcome{Impl: "bad-op", Tags: []string{"bad-op", "trivial"}}
+	if len(f) != 5 || (f[1] != "0" && f[1] != "1") || (f[2] != "0" && f[2] != "1") {
+		return bad
+	}
+	var xfp []string
+	if f[3] != "-" {
+		for _, h := range strings.Split(f[3], ",") {
+			v, err := core.UnHex(h)
+			if err != nil {
+				return bad
+			}
+			xfp = append(xfp, v)
+		}
+	}
+	neg := strings.HasPrefix(f[4], "-")
+	mav, ok := num(max63, strings.TrimPrefix(f[4], "-"))
+	if !ok {
+		return bad
+	}
+	ma := int64(mav)
+	if neg {
+		ma = -ma
+	}
+	cfg := map[string]any{"secret": cookieSecret}
+	if ma != 0 {
+		cfg["max_age"] = ma
+	}
+	sel, closeFn, err := loadPolicy("cookie", cfg)
+	if err != nil {
+		return core.Outcome{Impl: "err:provision", Tags: []string{"err:provision"}}
+	}
+	defer closeFn()
+	req := &http.Request{Method: "GET", URL: &url.URL{Path: "/"}, RequestURI: "/", Host: "h.example", Header: http.Header{},
+		RemoteAddr: "10.0.0.1:1", Proto: "HTTP/1.1", ProtoMajor: 1, ProtoMinor: 1}
+	if f[1] == "1" {
+		req.TLS = &tls.ConnectionState{}
+	}
+	for _, v := range xfp {
+		req.Header.Add("X-Forwarded-Proto", v)
+	}
+	req = req.WithContext(context.WithValue(context.Background(), caddyhttp.VarsCtxKey, map[string]any{
+		caddyhttp.ClientIPVarKey: "10.0.0.1", caddyhttp.TrustedProxyVarKey: f[2] == "1",
+	}))
+	p1, _ := probePools()
+	rec := httptest.NewRecorder()
+	up := sel.Select(p1, req, rec)
+	cks := rec.Result().Cookies()
+	o.Tags = []string{"sc"}
+	if up == nil || len(cks) != 1 {
+		o.Impl = "?"
+		return o
+	}
+	c := cks[0]
+	sec, ss := "0", "-"
+	if c.Secure {
+		sec = "1"
+		o.Tags = append(o.Tags, "sc:secure")
+	}
+	if c.SameSite == http.SameSiteNoneMode {
+		ss = "none"
+	}
+	o.Impl = fmt.Sprintf("secure=%s ss=%s ma=%d", sec, ss, c.MaxAge)
+	// oracle: a browser must be able to return the cookie
+	https := f[1] == "1" || (f[2] == "1" && len(xfp) > 0 && xfp[len(xfp)-1] == "https")
+	tok, _ := reverseproxy.VerifHashCookie(cookieSecret, up.Dial)
+	switch {
+	case c.Path != "/" || c.Name != "lb" || c.Value != tok:
+		o.Failures = append(o.Failures, core.Failure{Class: "sticky-cookie-not-returnable",
+			What: fmt.Sprintf("the cookie for upstream %s is %q=%q Path=%q (expected lb=<HMAC of the dial address> Path=/)", up.Dial, c.Name, c.Value, c.Path)})
+	case c.Secure != https:
+		o.Failures = append(o.Failures, core.Failure{Class: "sticky-cookie-not-returnable",
+			What: fmt.Sprintf("tls=%s trusted=%s X-Forwarded-Proto=%q: cookie Secure=%v, the request is https: %v (a Secure cookie is not returned over plain HTTP; SameSite=None needs Secure)", f[1], f[2], xfp, c.Secure, https)})
+	}
+	return o
+}
+
+func genSc(rng *core.Rand) string {
+	var xfp []string
+	for i := rng.Intn(3); i > 0; i-- {
+		xfp = append(xfp, core.Hex(rng.Pick([]string{"https", "http", "HTTPS", "https, http", ""})))
+	}
+	x := "-"
+	if len(xfp) > 0 {
+		x = strings.Join(xfp, ",")
+	}
+	ma := []string{"0", "30000000000", "90000000000", "500000000", "3600000000000", "1999999999"}[rng.Intn(6)]
+	return fmt.Sprintf("sc %d %d %s %s", rng.Intn(2), rng.Intn(2), x, ma)
 }
